@@ -142,14 +142,14 @@ def gen_refdoc(rng):
     v = dict(section=0, subsection=0, equation=0, figure=0, table=0, thm=0)
     thm_within = rng.choice([None, 'section'])
     pre = '\\newtheorem{thm}{Theorem}' + ('[section]' if thm_within else '')
-    objs, number = [], {}
+    objs, number, tkind = [], {}, {}
     nlab = [0]
 
     def lab():
         nlab[0] += 1
         return 'L%d' % nlab[0]
     for _ in range(rng.randrange(3, 9)):
-        kind = rng.choice(['section', 'section', 'subsection', 'equation', 'figure', 'table', 'thm', 'enum'])
+        kind = rng.choice(['section', 'section', 'subsection', 'subsubsection', 'equation', 'figure', 'table', 'thm', 'enum'])
         l = lab() if rng.random() < 0.75 else None
         if kind == 'section':
             v['section'] += 1
@@ -162,6 +162,10 @@ def gen_refdoc(rng):
             v['subsection'] += 1
             num = '%d.%d' % (v['section'], v['subsection'])
             objs.append(['\\subsection{T}%s ' % ('\\label{%s}' % l if l else ''), None])
+        elif kind == 'subsubsection':
+            # deeper than the numbering depth (2): no number is printed, but the label still names this object
+            num = None
+            objs.append(['\\subsubsection{T}%s ' % ('\\label{%s}' % l if l else ''), None])
         elif kind == 'equation':
             v['equation'] += 1
             num = '%d' % v['equation']
@@ -183,6 +187,7 @@ def gen_refdoc(rng):
             objs.append(['\\begin{enumerate}%s' % its, '\\end{enumerate} '])
         if l:
             number[l] = num
+            tkind[l] = {'figure': 'caption', 'table': 'caption', 'thm': 'thmenv', 'enum': 'item'}.get(kind, kind)
     labels = sorted(number)
     # references: before / after / inside (the slot after the opening half of an environment)
     slots = []          # (object index, 'before' | 'inside' | 'after')
@@ -195,18 +200,19 @@ def gen_refdoc(rng):
     for _ in range(rng.randrange(2, 7)):
         target = rng.choice(labels + ['nosuch']) if labels else 'nosuch'
         placed.setdefault(rng.choice(slots), []).append(target)
-    out, expect = [], []
+    out, expect, kinds = [], [], []
     for i, o in enumerate(objs):
         for when in ('before', 'inside', 'after'):
             if when == 'inside':
                 out.append(o[0])
             for t in placed.get((i, when), []):
                 out.append(' [[\\ref{%s}]] ' % t)
-                expect.append(number.get(t, '??'))
+                expect.append(number.get(t, '??') if t in number else '??')
+                kinds.append((t, tkind.get(t)))
             if when == 'inside' and o[1] is not None:
                 out.append(o[1])
     src = '\\documentclass{article}%s\\begin{document}start %s\\end{document}' % (pre, ''.join(out))
-    return dict(src=src, expect=expect, text=src)
+    return dict(src=src, expect=expect, kinds=kinds, text=src)
 
 
 def check_refdoc(w):
@@ -219,11 +225,24 @@ def check_refdoc(w):
     except Exception as e:
         return False, 'parsing raised %s: %s' % (type(e).__name__, e)
     got = []
-    for n in d.getElementsByTagName('ref'):
+    refs = d.getElementsByTagName('ref')
+    for n in refs:
         tgt = n.idref.get('label')
         r = getattr(tgt, 'ref', None) if tgt is not None else None
         # what the renderers print for a reference: the number of its target (?? when the label is unknown)
         got.append(r.textContent if r is not None else '??')
+    # the target is the labelled object itself, and the label is its identifier
+    for n, (lab, kind) in zip(refs, w.get('kinds', [])):
+        tgt = n.idref.get('label')
+        if kind is None:
+            if tgt is not None and tgt.parentNode is not None:
+                return False, 'the dangling reference to %r resolves to a %s in the document' % (lab, tgt.nodeName)
+            continue
+        if tgt is None or tgt.nodeName != kind or tgt.id != lab:
+            return False, 'reference to %r resolves to %s with id %r; the label is written in a %s' % (
+                lab, getattr(tgt, 'nodeName', None), getattr(tgt, 'id', None), kind)
+    expect = [('??' if e is None else e) for e in w['expect']]
+    w = dict(w, expect=expect)
     if got != w['expect']:
         i = next((j for j, (a, b) in enumerate(zip(got, w['expect'])) if a != b), min(len(got), len(w['expect'])))
         return False, 'reference #%d prints %r, LaTeX gives %r (all: %r vs %r)' % (i, got[i:i + 1], w['expect'][i:i + 1], got, w['expect'])
@@ -250,3 +269,22 @@ BOUNDED.append(('bounded/ref-documents', 'every \\ref prints the number of the o
                 'and ?? when the label does not exist',
                 'random articles: 3-8 objects among sections, subsections, equations, figures, tables (label after the caption), theorems (plain or numbered within '
                 'sections), enumerate items; 75% labelled; 2-6 references before / inside / after the objects in random order, some dangling', bounded_refdocs))
+
+
+def bounded_label_after_nested(budget, rng):
+    """A label written in a numbered object AFTER a nested numbered object has ended still attaches to the outer object (LaTeX restores
+    \\@currentlabel at the end of the inner group)."""
+    n = 0
+    pre = '\\documentclass{article}\\newtheorem{thm}{Theorem}\\begin{document}'
+    for body, exp in (('\\section{S} \\begin{thm} claim \\begin{enumerate}\\item a\\item b\\end{enumerate} \\label{t}\\end{thm} [[\\ref{t}]]', ['1']),
+                      ('\\section{S} \\section{T} \\begin{thm} text \\begin{equation}a=b\\end{equation} \\label{t}\\end{thm} [[\\ref{t}]]', ['1'])):
+        n += 1
+        w = dict(src=pre + body + '\\end{document}', expect=exp)
+        ok, d = check_refdoc(w)
+        if not ok:
+            return False, n, d, dict(text=w['src'], kind='label-after-nested')
+    return True, n, ''
+
+
+BOUNDED.append(('bounded/label-after-nested-object', 'a label after a nested numbered object still names the enclosing numbered object', '2 documents', bounded_label_after_nested))
+CLASSES['label-after-nested'] = lambda w: isinstance(w, dict) and w.get('kind') == 'label-after-nested'
